@@ -30,7 +30,7 @@ na = [{"property_id": pid, "reason": P.NOT_YET.get(pid, "check not built yet in 
       for pid in ALL if pid not in P.PROPS]
 m = {
     "version": 1,
-    "setup_cmd": "cd /verif/lean && lake build TemporalModel driver && cd /verif/harness && cargo build --offline && cargo build --offline --release",
+    "setup_cmd": "python3 /verif/tools/translate_wrappers.py && cd /verif/lean && lake build TemporalModel driver && cd /verif/harness && cargo build --offline && cargo build --offline --release",
     "hooks": {
         "guard": "cargo feature `verif_hooks` (temporal_rs)",
         "enable": "harness/Cargo.toml depends on /repo with features [compiled_data, verif_hooks]",
